@@ -7,6 +7,7 @@ pub mod ch_util;
 pub mod ch_mpsc;
 pub mod mq_spmc;
 pub mod mutex;
+pub mod mq_tl;
 pub mod rwlock;
 pub mod sem;
 pub mod syncflag;
@@ -31,6 +32,7 @@ pub struct Built {
 pub fn build_det(family: &str, rng: &mut Rng, tier: u32) -> Option<Built> {
     match family {
         "mutex" => Some(mutex::build(rng, tier)),
+        "mq_tl" => Some(mq_tl::build(rng, tier)),
         "rwlock" => Some(rwlock::build(rng, tier)),
         "rwlock_reg" => Some(rwlock::build_reg(rng, tier)),
         "ch_mpsc" => Some(ch_mpsc::build(rng, tier)),
@@ -47,7 +49,7 @@ pub fn build_det(family: &str, rng: &mut Rng, tier: u32) -> Option<Built> {
 }
 
 pub fn det_families() -> Vec<&'static str> {
-    vec!["ch_mpsc", "mutex", "rwlock", "rwlock_reg", "sem", "syncflag", "mq_mpsc", "mq_spsc", "mq_spmc", "condvar", "barrier", "waitgroup"]
+    vec!["ch_mpsc", "mutex", "mq_tl", "rwlock", "rwlock_reg", "sem", "syncflag", "mq_mpsc", "mq_spsc", "mq_spmc", "condvar", "barrier", "waitgroup"]
 }
 
 pub mod live_park;
